@@ -22,7 +22,7 @@ RET, CANCEL, UNWIND = "RET", "CANCEL", "UNWIND"
 
 
 class Alphabet:
-    def __init__(self, calls=None, adts=None, bools=None, retval=False, type_tags=None):
+    def __init__(self, calls=None, adts=None, bools=None, retval=False, type_tags=None, fut_types=None):
         """calls: list of (label, predicate(term)->bool)
         adts: dict canonical adt def path -> short name
         bools: labels (subset of call labels) whose bool result is tracked
@@ -31,6 +31,7 @@ class Alphabet:
         self.adts = adts or {}
         self.bools = set(bools or [])
         self.retval = retval
+        self.fut_types = fut_types or []  # [(substring of the awaited future's type, label)] for awaits of non-call values
         self.type_tags = type_tags or []  # [(substring of the scrutinee type, tag)] used when no producing call is known
 
     def call_label(self, t):
@@ -225,6 +226,14 @@ def switch_labels(body, bi, t, alpha):
                     lab = alpha.call_label(ct)
                     if lab:
                         labs.add(lab)
+            if not labs and alpha.fut_types:
+                for pl in polls:
+                    pt = body.blocks[pl.site[0]]["t"]
+                    aty = (pt.get("argtys") or [""])[0]
+                    for sub, lab in alpha.fut_types:
+                        if sub in aty:
+                            labs.add(lab)
+                            break
             if labs:
                 lab = "|".join(sorted(labs))
                 for (val, _b) in t["targets"]:
